@@ -65,6 +65,9 @@ CONSTANTS
   MBothHalves, \* TRUE [code]: both the U and the conj(U) entries are rewritten; FALSE: mutant
   MFreshLinks, \* TRUE [code]: link variables recomputed on every call; FALSE: mutant (cached from first refresh)
   MFixPsi,     \* TRUE [code]: rows are pinned only when fix_psi; FALSE: mutant (fix_psi ignored)
+  MMemoLpsi,   \* FALSE [code]: every Euler step multiplies psi by the Laplacian held at that moment; TRUE: mutant
+               \* (the product psi_laplacian @ psi is memoised per psi array, i.e. per solve step: screening iterations
+               \* >= 2 use the product formed before the Laplacian was refreshed)
   MSkipEqual,  \* FALSE [code]: every call rebuilds / refreshes; TRUE: mutant ("already up to date" short-cut: return
                \* when the incoming array compares equal to self.link_exponents, which is a REFERENCE to the caller's array)
   MFixFlag     \* "at_use" [code]: fix_psi = (terminal_psi is not None) is read when the solver is constructed;
@@ -187,10 +190,12 @@ VARIABLES
   ind,       \* identity of the induced potential A_induced
   tv,        \* value class on terminal sites: "eq" (= configured), "drift", "free" (nothing configured),
              \* "seed" (initial state only: the seed's values, different from the configured one)
-  drifted    \* history: tv was "drift" at some step (what the saved frames show)
+  drifted,   \* history: tv was "drift" at some step (what the saved frames show)
+  memoLap,   \* the Laplacian whose product with psi is cached for this step (<<>>: none; MMemoLpsi mutant only)
+  stepFresh  \* the last Euler step USED the operators of the latest total potential (what it did with psi)
 
 opsvars == <<built, lap, grad, freeRows, linkQ, firstQ, calls>>
-stepvars == <<pc, step, s, curA, prevA, ind, tv, drifted>>
+stepvars == <<pc, step, s, curA, prevA, ind, tv, drifted, memoLap, stepFresh>>
 aliasvars == <<heldBuf, heldVal, bufQ>>
 vars == <<cfg, opsvars, aliasvars, hist, stepvars>>
 
@@ -249,6 +254,7 @@ InitCommon ==
   /\ built = FALSE /\ lap = <<>> /\ grad = <<>> /\ freeRows = <<>> /\ linkQ = <<>> /\ firstQ = <<>>
   /\ calls = 0 /\ hist = <<>> /\ heldBuf = 0 /\ heldVal = <<>> /\ bufQ = <<>>
   /\ step = 0 /\ s = 0 /\ curA = 0 /\ prevA = 0 /\ ind = 0 /\ tv = "unset" /\ drifted = FALSE
+  /\ memoLap = <<>> /\ stepFresh = TRUE
 
 InitOps == /\ cfg \in [inst : Insts, mode : Modes, scr : {FALSE}, dyn : {FALSE}, v : {"zero"}, seed : {"configured"},
                           form : {"keyword"}, v0 : {"zero"}]
@@ -294,20 +300,21 @@ Ctor ==
   /\ tv' = IF cfg.v = "none" THEN "free"
            ELSE IF cfg.seed = "configured" \/ FixedSites = {} THEN "eq" ELSE "seed"
   /\ pc' = "idle"
-  /\ UNCHANGED <<cfg, hist, aliasvars, step, s, curA, prevA, ind, drifted>>
+  /\ UNCHANGED <<cfg, hist, aliasvars, step, s, curA, prevA, ind, drifted, memoLap, stepFresh>>
 
 BeginStep ==
   /\ pc = "idle" /\ step < MaxSteps
   /\ pc' = IF cfg.dyn THEN "field" ELSE "loop"
   /\ s' = 0
-  /\ UNCHANGED <<cfg, hist, aliasvars, opsvars, step, curA, prevA, ind, tv, drifted>>
+  /\ memoLap' = <<>>                     \* a new solve step comes with a new psi array
+  /\ UNCHANGED <<cfg, hist, aliasvars, opsvars, step, curA, prevA, ind, tv, drifted, stepFresh>>
 
 \* update_applied_vector_potential(time): the environment moves along the chain
 Field(a) ==
   /\ pc = "field"
   /\ curA' = a
   /\ pc' = "trigger"
-  /\ UNCHANGED <<cfg, hist, aliasvars, opsvars, step, s, prevA, ind, tv, drifted>>
+  /\ UNCHANGED <<cfg, hist, aliasvars, opsvars, step, s, prevA, ind, tv, drifted, memoLap, stepFresh>>
 
 Changed == IF MTrigger = "prev_close" THEN ~Close(curA, prevA) ELSE curA # prevA
 
@@ -316,25 +323,25 @@ TrigRefresh ==
   /\ Refresh(QOfPot(M, curA, 0))          \* set_link_exponents(current_A_applied): applied part only
   /\ prevA' = curA
   /\ pc' = "loop"
-  /\ UNCHANGED <<cfg, hist, aliasvars, step, s, curA, ind, tv, drifted>>
+  /\ UNCHANGED <<cfg, hist, aliasvars, step, s, curA, ind, tv, drifted, memoLap, stepFresh>>
 
 TrigSkip ==
   /\ pc = "trigger" /\ ~Changed
   /\ prevA' = curA                          \* self.current_A_applied is overwritten every step
   /\ pc' = "loop"
-  /\ UNCHANGED <<cfg, hist, aliasvars, opsvars, step, s, curA, ind, tv, drifted>>
+  /\ UNCHANGED <<cfg, hist, aliasvars, opsvars, step, s, curA, ind, tv, drifted, memoLap, stepFresh>>
 
 \* screening: set_link_exponents(current_A_applied + A_induced) in every iteration
 Links ==
   /\ pc = "loop" /\ cfg.scr
   /\ Refresh(QOfPot(M, curA, ind))
   /\ pc' = "euler"
-  /\ UNCHANGED <<cfg, hist, aliasvars, step, s, curA, prevA, ind, tv, drifted>>
+  /\ UNCHANGED <<cfg, hist, aliasvars, step, s, curA, prevA, ind, tv, drifted, memoLap, stepFresh>>
 
 NoLinks ==
   /\ pc = "loop" /\ ~cfg.scr
   /\ pc' = "euler"
-  /\ UNCHANGED <<cfg, hist, aliasvars, opsvars, step, s, curA, prevA, ind, tv, drifted>>
+  /\ UNCHANGED <<cfg, hist, aliasvars, opsvars, step, s, curA, prevA, ind, tv, drifted, memoLap, stepFresh>>
 
 (* The Euler step on a terminal site.  With an identity row (L psi)_i = psi_i, so the   *)
 (* update of psi_i is  psi_i + dt/u sqrt(..) ((eps - |psi_i|^2) psi_i + psi_i): it      *)
@@ -352,10 +359,15 @@ EulerValue(retried) ==
   ELSE IF tv = "eq" /\ cfg.v = "zero" /\ PinnedRowsAreIdentity THEN "eq"
   ELSE "drift"
 
+LatestQ == QOfPot(M, curA, IF cfg.scr THEN ind ELSE 0)      \* link configuration of the latest total potential
+\* what the step does with psi: L psi with the Laplacian in force (or, mutant, the memoised product)
+UsedLap == IF MMemoLpsi /\ memoLap # <<>> THEN memoLap ELSE lap
 Euler(retried) ==
   /\ pc = "euler"
   /\ tv' = EulerValue(retried)
   /\ drifted' = (drifted \/ tv' = "drift")
+  /\ stepFresh' = (UsedLap = BuildLap(M, LatestQ, Eff))
+  /\ memoLap' = IF MMemoLpsi THEN UsedLap ELSE <<>>
   /\ pc' = IF cfg.scr THEN "induced" ELSE "finish"
   /\ UNCHANGED <<cfg, hist, aliasvars, opsvars, step, s, curA, prevA, ind>>
 EulerStep == pc = "euler" /\ \E retried \in BOOLEAN : Euler(retried)
@@ -366,13 +378,13 @@ Induced(chg, again) ==
   /\ ind' = ind + chg
   /\ IF again THEN /\ s < MaxIter /\ s' = s + 1 /\ pc' = "loop"
               ELSE /\ s' = s /\ pc' = "finish"
-  /\ UNCHANGED <<cfg, hist, aliasvars, opsvars, step, curA, prevA, tv, drifted>>
+  /\ UNCHANGED <<cfg, hist, aliasvars, opsvars, step, curA, prevA, tv, drifted, memoLap, stepFresh>>
 
 Finish ==
   /\ pc = "finish"
   /\ step' = step + 1
   /\ pc' = "idle"
-  /\ UNCHANGED <<cfg, hist, aliasvars, opsvars, s, curA, prevA, ind, tv, drifted>>
+  /\ UNCHANGED <<cfg, hist, aliasvars, opsvars, s, curA, prevA, ind, tv, drifted, memoLap, stepFresh>>
 
 InducedStep == pc = "induced" /\ \E chg \in {0, 1}, again \in BOOLEAN : (ind + chg <= IMax) /\ Induced(chg, again)
 FieldStep == pc = "field" /\ \E a \in 0..AMax : Field(a)
@@ -386,12 +398,13 @@ NextStep ==
 SpecStep == InitStep /\ [][NextStep]_vars
 
 (* ---- properties at solver level ---- *)
-LatestQ == QOfPot(M, curA, IF cfg.scr THEN ind ELSE 0)
 OpsFresh == /\ linkQ = LatestQ
             /\ lap = BuildLap(M, LatestQ, Eff)
             /\ grad = BuildGrad(M, LatestQ)
 \* C10: no Euler step ever runs with stale or partially updated operators
 OperatorsMatchLatestA == (pc = "euler") => OpsFresh
+\* C10: ... observed on what the step DOES with psi, not only on the operator object
+EulerUsesLatestOperators == stepFresh
 \* C06: on every terminal site the order parameter equals the CONFIGURED value at every step, for every initial
 \* state.  Steps are counted from the first update: the state before it (frame 0 of a seeded run) is the seed's,
 \* tv = "seed", and no Euler step ever produces "seed" again.
